@@ -418,5 +418,22 @@ def check_trace(ctx, tr, w):
     defects = invariant_defects(pre, nper, started=True)
     if defects:
         bad_("fp2.invariant", {**case0, "leg": len(legs)}, defects, "Inv")
+    if str(tr.get("end")).startswith("exc:TagActivatorError"):
+        # the leg after the last recorded commit raised while handlers were created (it is not recorded): does the model's yield on
+        # the last recorded state (plus what stays pending) fit into the pools of the created taggers?  If so the real taggers
+        # yielded more than the model says.
+        last = tagger[meta["handlers"][legs[-1]["chosen"]][0]]
+        s2 = modecorr.a_step(w, tuple(bool(legs[-1]["activated"][t]) for t in idx_tag), idx_tag.index(last["tag"]))
+        fl = flags_of(pre)
+        fits = True
+        for tag in last["creates"]:
+            t = tagger[tag]
+            if s2[idx_tag.index(tag)] and not (t["lean_cls"] == "factorTypeMap" and fs is None):
+                still = 0 if tag in last["trashes"] else len((legs[-1].get("pending") or {}).get(tag, []))
+                fits = fits and still + len(yield_of(nper, fs, ftype.get(tag), t["lean_cls"], fl)) <= t["pool"]
+        ctx.count("fp2:pool-exhausted:" + ("model-fits(BAD)" if fits else "model-too"))
+        if fits:
+            bad_("fp2.yield", {**case0, "leg": len(legs), "what": "TagActivatorError in the leg after the last commit"},
+                 "handler pool exhausted", "the yields of the model fit into the pools")
     ctx.evaluations += len(legs)
     return len(legs)
